@@ -51,6 +51,12 @@ class C01(Property):
             d["alpha"] = rng.choice([None, 0.0, 0.4, 0.5, 0.999, "#", "#102030", "#ffffff"])
             d["bg"] = rng.choice([None, (0, 0, 0), (255, 255, 255), (16, 32, 48)])
             if style == "block":
+                if rng.random() < 0.4:
+                    # source at exactly the render resolution: pixel patterns reach the renderer unblurred
+                    d["identity"] = True
+                    d["w"], d["h"] = d["cols"], 2 * d["lines"]
+                    d["mode"] = rng.choice(["RGBA", "RGBA", "LA", "RGB"])
+                    d["alpha"] = rng.choice([0.4, 0.5, 0.4, None, "#"])
                 d["kitty_term"] = rng.random() < 0.4
                 d["split"] = rng.random() < 0.3
                 kind = "block" + ("-split" if d["split"] else "") + ("-kitty" if d["kitty_term"] else "")
@@ -62,12 +68,21 @@ class C01(Property):
                 d["term"] = rng.choice(KINDS)
                 if style == "iterm2" and d["method"] == "anim" and rng.random() < 0.6:
                     d["animated"] = rng.choice([2, 3])  # a real multi-frame file: native animation path
+                if style == "kitty" and rng.random() < 0.15:
+                    # payload of exactly k*3072 raw bytes = k*4096 base64 characters, uncompressed:
+                    # the chunker's boundary case
+                    d.update(mode="RGB", alpha=None, compress=0, cell=(8, 16))
+                    if rng.random() < 0.5:
+                        d.update(method="whole", w=rng.choice([32, 64]), h=32, cols=rng.choice([8, 16]), lines=rng.choice([4, 8]))
+                    else:
+                        d.update(method="lines", cols=16, lines=rng.randrange(17, 22), w=200, h=20)
+                    d["exact"] = True
                 if style == "kitty":
                     d["blend"] = rng.random() < 0.6
                     d["z"] = rng.choice([0, -1, 1, 2**31 - 1, -(2**31) + 1, rng.randrange(-99, 99)])
                 else:
                     d["jpeg"] = rng.choice([-1, -1, 30, 95])
-                kind = f"{style}-{d['method']}" + (f"-{d['term']}" if style == "iterm2" else "") + ("-native" if d.get("animated") else "")
+                kind = f"{style}-{d['method']}" + (f"-{d['term']}" if style == "iterm2" else "") + ("-native" if d.get("animated") else "") + ("-exact" if d.get("exact") else "")
             yield Case("", d, kind, True)
 
     # -- run the real code, build the model request from what the real code was given ------
@@ -80,7 +95,12 @@ class C01(Property):
         if style == "block":
             env.set_env(is_on_kitty=d["kitty_term"])
             im = BlockImage(img)
-            im.set_size(width=d["cols"]) if d["cols"] <= 2 * d["lines"] else im.set_size(height=d["lines"])
+            if d.get("identity"):
+                im.set_size(width=d["cols"], height=d["lines"])
+            elif d["cols"] <= 2 * d["lines"]:
+                im.set_size(width=d["cols"])
+            else:
+                im.set_size(height=d["lines"])
             cap = {}
             orig = im._get_render_data
 
